@@ -14,6 +14,7 @@ package c14
 
 import (
 	"encoding/json"
+	"fmt"
 	"io/ioutil"
 	"path/filepath"
 	"strings"
@@ -38,14 +39,15 @@ var Check = &run.Check{
 	Rule: "case = operation script (3-25 commits, <= 12 paths per commit: create/modify/delete/re-create, renames same-dir / into+out of a sub-directory / to+from the root / across dirs / " +
 		"first or middle level replaced, optionally with a small edit; text, empty and binary files; paths with spaces, dashes and space-separated digits, nested directories; empty commits; " +
 		"one or more --no-ff merges of a topic branch with work on both sides; 1-5 authors with spaces/digits/non-ASCII, one author name being a prefix of another; subjects with [hex], brackets, colons, " +
-		"=>, the commit's own date, other dates, the author's name, numstat-/summary-looking words, conventional-commit prefixes) executed by the installed git with fixed dates and an empty configuration; " +
+		"=>, the commit's own date, other dates, the author's name, numstat-/summary-looking words, conventional-commit prefixes, leading blanks/tab/U+3000, trailing U+00A0/U+2003 (git keeps them in %s); " +
+		"every 60th repository has one commit whose first message paragraph (= %s, one log line) is 70-100 KB) executed by the installed git with fixed dates and an empty configuration; " +
 		"truth = git log --reverse -z --raw --numstat --format=%x01%h%x00%P%x00%aN%x00%ad%x00%s%x00 --date=short, cross-checked against git's own textual numstat; " +
 		"observed = coca_reporter/commits.json of `coca git` run in the repository AND git.BuildMessageByInput(text of the documented git log invocation); " +
 		"non-trivial = >= 3 listed commits, >= 1 rename pair reported by git and >= 1 of {merge, empty commit, binary file, deletion}; distinct = hash of the per-commit multiset of (status, rename notation shape, binary) + parents + subject kinds",
 	Assumptions: []string{
 		"git >= 2.9 with an empty system/global configuration (rename detection on, core.quotePath default); generated paths use [A-Za-z0-9 ._-/] only, so git never C-quotes a path",
 		"author names contain no date-like word (YYYY-MM-DD): the header format `[%h] %aN %ad %s` itself is ambiguous for such names",
-		"subjects are single-line and non-empty; symlinks, submodules, mode-only changes and copies (-C) are not generated (not named by the quantifier)",
+		"subjects are non-empty (one line, or one long first paragraph that %s folds into a line); symlinks, submodules, mode-only changes and copies (-C) are not generated (not named by the quantifier)",
 		"the order of changes inside a commit is free (the statement speaks of one change per path)",
 		"for a rename pair the 'path' is the one numstat prints (`dir/{a => b}/f` or `old => new`): one change per pair, mode \"\"",
 	},
@@ -74,7 +76,9 @@ func toParsed(ms []cocagit.CommitMessage) []gitgen.Parsed {
 
 func runCase(c *run.Ctx, o *run.Outcome) {
 	r := c.Rng
-	sc := gitgen.Generate(r.Fork(), gitgen.Opts{MinCommits: 3, MaxCommits: 25, MaxOps: 12})
+	// every 60th repository (2 in quick, 40 in thorough) carries one commit whose first message paragraph, i.e. its
+	// %s subject and therefore one line of the log, is 70-100 KB long
+	sc := gitgen.Generate(r.Fork(), gitgen.Opts{MinCommits: 3, MaxCommits: 25, MaxOps: 12, LongSubject: c.Index%60 == 7})
 	repo := filepath.Join(c.Scratch(), "repo")
 	witness := map[string]interface{}{"script": sc}
 	o.Witness = witness
@@ -91,7 +95,7 @@ func runCase(c *run.Ctx, o *run.Outcome) {
 		o.SetInconclusive("ground truth: " + head(err.Error()))
 		return
 	}
-	witness["truth"] = truth
+	witness["truth"] = clipTruth(truth)
 
 	// coverage
 	var shape []interface{}
@@ -106,6 +110,12 @@ func runCase(c *run.Ctx, o *run.Outcome) {
 			nSpecial++
 		default:
 			nExp++
+		}
+		if len(t.Subject) > 65536 {
+			o.Count("truth_subjects_over_64KiB", 1)
+		}
+		if t.Subject != strings.TrimSpace(t.Subject) {
+			o.Count("truth_subjects_with_leading_or_trailing_(unicode)_space", 1)
 		}
 		if hz := gitgen.Hazard(t); hz != "" {
 			o.Count("hazard_"+hz, 1)
@@ -168,7 +178,7 @@ func runCase(c *run.Ctx, o *run.Outcome) {
 		o.Violate("lib/panic@"+site, "BuildMessageByInput panicked: %s", val)
 	} else {
 		lib := toParsed(parsed)
-		witness["lib_observed"] = lib
+		witness["lib_observed"] = clipParsed(lib)
 		o.Count("lib_commits_observed", len(lib))
 		mm := gitgen.Compare(truth, lib)
 		if len(mm) == 0 {
@@ -196,7 +206,7 @@ func runCase(c *run.Ctx, o *run.Outcome) {
 			} else if err := json.Unmarshal(b, &cli); err != nil {
 				o.Violate("cli/output-unreadable", "commits.json is not a JSON list of commits: %v", err)
 			} else {
-				witness["cli_observed"] = cli
+				witness["cli_observed"] = clipParsed(cli)
 				o.Count("cli_commits_observed", len(cli))
 				mm := gitgen.Compare(truth, cli)
 				if len(mm) == 0 {
@@ -209,8 +219,29 @@ func runCase(c *run.Ctx, o *run.Outcome) {
 		}
 	}
 	if c.Index < 64 {
-		o.Sample = map[string]interface{}{"script_steps": len(sc.Steps), "truth": truth, "git_log_text": clip(text, 3000)}
+		o.Sample = map[string]interface{}{"script_steps": len(sc.Steps), "truth": clipTruth(truth), "git_log_text": clip(text, 3000)}
 	}
+}
+
+// clipTruth / clipParsed shorten the 70-100 KB subjects for witness and sample (the comparison uses the full text).
+func clipTruth(ts []gitgen.TruthCommit) []gitgen.TruthCommit {
+	out := append([]gitgen.TruthCommit(nil), ts...)
+	for i := range out {
+		if n := len(out[i].Subject); n > 2000 {
+			out[i].Subject = fmt.Sprintf("%s…(%d bytes)", out[i].Subject[:300], n)
+		}
+	}
+	return out
+}
+
+func clipParsed(ps []gitgen.Parsed) []gitgen.Parsed {
+	out := append([]gitgen.Parsed(nil), ps...)
+	for i := range out {
+		if n := len(out[i].Message); n > 2000 {
+			out[i].Message = fmt.Sprintf("%s…(%d bytes)", out[i].Message[:300], n)
+		}
+	}
+	return out
 }
 
 func sortStrings(s []string) {
